@@ -5,7 +5,9 @@
 //	         call expression, i.e. inner calls before the calls that consume them)
 //	funchash sha256 of the gofmt-normalised source of a function (used by vcheck to notice
 //	         that a transcribed function was edited; never an alarm by itself)
-//	cases    the case expressions of the first switch in a function, as strings
+//	cases    the case expressions of the index-th switch (or type switch) in a function, as strings
+//	literals every basic literal in a function body, as written
+//	callargs like calls, with the argument expressions of every call
 //
 // A fact that can no longer be extracted is left undefined in the Lean file, so that every
 // theorem depending on it stops building ("fact no longer extractable" is visible, not silent).
@@ -29,10 +31,11 @@ import (
 )
 
 type Fact struct {
-	Name string `json:"name"`
-	Kind string `json:"kind"`
-	File string `json:"file"`
-	Func string `json:"func"` // "Recv.Name" or "Name"
+	Name  string `json:"name"`
+	Kind  string `json:"kind"`
+	File  string `json:"file"`
+	Func  string `json:"func"`  // "Recv.Name" or "Name"
+	Index int    `json:"index"` // cases: which switch statement (0 = first), type switches included
 	// results
 	Calls []string `json:"calls,omitempty"`
 	Hash  string   `json:"hash,omitempty"`
@@ -216,27 +219,79 @@ func main() {
 			h := sha256.Sum256(buf.Bytes())
 			f.Hash = hex.EncodeToString(h[:])
 		case "cases":
+			// case expressions of the Index-th switch statement (expression or type switch, in
+			// source order, nested ones counted too)
 			f.Cases = []string{}
-			done := false
+			seen := 0
+			found := false
 			ast.Inspect(fd.Body, func(n ast.Node) bool {
-				if done {
+				if found {
 					return false
 				}
-				if sw, ok := n.(*ast.SwitchStmt); ok {
-					for _, st := range sw.Body.List {
-						cc := st.(*ast.CaseClause)
-						if cc.List == nil {
-							f.Cases = append(f.Cases, "default")
-						}
-						for _, e := range cc.List {
-							f.Cases = append(f.Cases, exprString(fset, e))
-						}
+				var body *ast.BlockStmt
+				switch sw := n.(type) {
+				case *ast.SwitchStmt:
+					body = sw.Body
+				case *ast.TypeSwitchStmt:
+					body = sw.Body
+				}
+				if body == nil {
+					return true
+				}
+				if seen < f.Index {
+					seen++
+					return true
+				}
+				for _, st := range body.List {
+					cc := st.(*ast.CaseClause)
+					if cc.List == nil {
+						f.Cases = append(f.Cases, "default")
 					}
-					done = true
-					return false
+					for _, e := range cc.List {
+						f.Cases = append(f.Cases, exprString(fset, e))
+					}
+				}
+				found = true
+				return false
+			})
+			if !found {
+				f.Err = "switch statement not found"
+			}
+		case "literals":
+			// every basic literal of the body, in source order, as written (strings keep quotes)
+			f.Calls = []string{}
+			ast.Inspect(fd.Body, func(n ast.Node) bool {
+				if bl, ok := n.(*ast.BasicLit); ok {
+					f.Calls = append(f.Calls, bl.Value)
 				}
 				return true
 			})
+		case "callargs":
+			// like `calls`, but each call is rendered with its argument expressions
+			type c struct {
+				end  token.Pos
+				name string
+			}
+			var cs []c
+			ast.Inspect(fd.Body, func(n ast.Node) bool {
+				if ce, ok := n.(*ast.CallExpr); ok {
+					args := make([]string, len(ce.Args))
+					for i, a := range ce.Args {
+						if _, isFn := a.(*ast.FuncLit); isFn {
+							args[i] = "func"
+						} else {
+							args[i] = exprString(fset, a)
+						}
+					}
+					cs = append(cs, c{ce.End(), callName(ce.Fun) + "(" + strings.Join(args, ", ") + ")"})
+				}
+				return true
+			})
+			sort.SliceStable(cs, func(i, j int) bool { return cs[i].end < cs[j].end })
+			f.Calls = []string{}
+			for _, x := range cs {
+				f.Calls = append(f.Calls, x.name)
+			}
 		default:
 			f.Err = "unknown kind"
 		}
@@ -250,6 +305,10 @@ func main() {
 				continue
 			}
 			switch f.Kind {
+			case "literals":
+				fmt.Fprintf(&w, "/-- basic literals in `%s` of %s, in source order -/\ndef %s : List String :=\n  %s\n\n", f.Func, f.File, f.Name, leanList(f.Calls))
+			case "callargs":
+				fmt.Fprintf(&w, "/-- calls with argument expressions in `%s` of %s, ordered by end position -/\ndef %s : List String :=\n  %s\n\n", f.Func, f.File, f.Name, leanList(f.Calls))
 			case "calls":
 				fmt.Fprintf(&w, "/-- calls in `%s` of %s, ordered by end position -/\ndef %s : List String :=\n  %s\n\n", f.Func, f.File, f.Name, leanList(f.Calls))
 			case "cases":
